@@ -14,13 +14,16 @@ def run(ctx):
     binary = vlib.build_harness(ctx)
     quick = ctx.tier == "quick"
     st = [[c] for c in CACHES] + [[c, i] for c in CACHES for i in INNER] + [[i, c] for c in CACHES for i in INNER[:3]]
-    st += [["cK", "cIf"], ["cIf", "cK"], ["cK", "cK"], ["cK", "rp1", "cbA"], ["cIfE", "rp1", "cbA"]]
+    st += [["cK", "cIf"], ["cIf", "cK"], ["cK", "cK"], ["cK", "rp1", "cbA"], ["cIfE", "rp1", "cbA"], ["cK", "cbHR"], ["cK", "rpHL"], ["cIf", "rpHL"], ["fbR", "cK", "cbHR"]]
     keys = ("none", "k", "k2", "", "nonstring")
     if quick:
         jobs = [dict(ctx=ctx, binary=binary, name="c%d" % k, stacks=st[k::2], outs=seq.OUTS3, maxcalls=2, execs=3, ctxkeys=("none", "k2", ""), workers=8) for k in range(2)]
         jobs.append(dict(ctx=ctx, binary=binary, name="ckeys", stacks=[["cK"], ["cIf", "rp1"], ["cNoKey"], ["cIfE", "cbA"]], outs=seq.OUTS3, maxcalls=2, execs=3, ctxkeys=keys, workers=8))
     else:
         jobs = [dict(ctx=ctx, binary=binary, name="c%d" % k, stacks=st[k::4], outs=seq.OUTS3, maxcalls=3, execs=3, ctxkeys=keys, workers=8) for k in range(4)]
+    # an interface result type (R = any, as in failsafe.Run): the zero result is nil and must be cached and hit like any other
+    jobs.append(dict(ctx=ctx, binary=binary, name="cany", stacks=[["cK"], ["cIf"], ["cIfE"], ["cNoKey"], ["cK", "cIf"]], outs=seq.OUTS4, maxcalls=2, execs=3,
+                     ctxkeys=("none", "k2", ""), workers=4, mode="seq_cache_any"))
     mism = seq.run_jobs(ctx, jobs, par=2)
     seq.report(ctx, mism, accept)
     return vlib.finish(ctx, rule="cache-centred stacks (configured key, CacheIf on a result, CacheIf on an error, no key) alone, over and under stateful inner policies; histories of 3-4 executions "
